@@ -193,8 +193,12 @@ class Run:
         except Exception as e:  # schema problems are engine faults, not violations
             self.engine_faults.append(f"evidence does not validate: {e}")
 
+        printed = set()
         for k, text in self.known_hits:
-            print(f"KNOWN-FINDING: property={self.prop_id} {k['key']}: {k['text']}")
+            if k["key"] not in printed:
+                printed.add(k["key"])
+                n = sum(1 for kk, _ in self.known_hits if kk["key"] == k["key"])
+                print(f"KNOWN-FINDING: property={self.prop_id} {k['key']}: {k['text']} [{n} refuted obligation(s) match this finding]")
         print(f"[{self.prop_id}] tier={self.tier} obligations={n_ob} discharged={n_dis} failed={n_fail} "
               f"undecided={n_und} configs={self.configs} canaries={self.canaries_ok}/{self.canaries_total} "
               f"wall={wall:.1f}s")
